@@ -29,6 +29,22 @@ var props = []*common.Prop{
 			}
 			return out
 		}},
+	{ID: "C11", New: func() interface{} { return &OwnCase{} },
+		Gen:    func(r *simrt.Rand, tier string, idx int) interface{} { return genOwnCase(r, tier, idx) },
+		Run:    runOwn,
+		Shrink: shrinkOwn},
+	{ID: "C12", New: func() interface{} { return &RTCase{} },
+		Gen:    func(r *simrt.Rand, tier string, idx int) interface{} { return genRTCase(r, tier) },
+		Run:    func(t *testing.T, c interface{}, trace bool) *common.Outcome { return runRT(t, c, trace, "C12") },
+		Shrink: shrinkRT},
+	{ID: "C13", New: func() interface{} { return &ValCase{} },
+		Gen:    func(r *simrt.Rand, tier string, idx int) interface{} { return genValCase(r, tier, idx) },
+		Run:    runVal,
+		Shrink: shrinkVal},
+	{ID: "C15", New: func() interface{} { return &LimCase{} },
+		Gen:    func(r *simrt.Rand, tier string, idx int) interface{} { return genLimCase(r, tier) },
+		Run:    runLim,
+		Shrink: shrinkLim},
 	{ID: "C09", New: func() interface{} { return &RespCase{} },
 		Gen:    func(r *simrt.Rand, tier string, idx int) interface{} { return genRespCase(r, tier, idx%4 == 3) },
 		Run:    func(t *testing.T, c interface{}, trace bool) *common.Outcome { return runResp(t, c, trace, "C09") },
